@@ -1,0 +1,31 @@
+//go:build verif
+// +build verif
+
+package css_lexer
+
+import "github.com/evanw/esbuild/internal/logger"
+
+// Thin wrapper (no logic) used by the verification harness in /verif (property C16):
+// a fresh lexer over text is stepped once (as Tokenize does) and ONE consumer is run.
+// which: 0 consumeEscape, 1 consumeString, 2 consumeURL, 3 consumeName.
+// Returns the consumer's result and the cursor state afterwards.
+func VerifConsume(which int, text string) (r rune, kind T, name string, current int, codePoint rune, rangeLen int32) {
+	source := logger.Source{Contents: text}
+	l := lexer{
+		log:     logger.NewDeferLog(logger.DeferLogAll, nil),
+		source:  source,
+		tracker: logger.MakeLineColumnTracker(&source),
+	}
+	l.step()
+	switch which {
+	case 0:
+		r = l.consumeEscape()
+	case 1:
+		kind = l.consumeString()
+	case 2:
+		kind = l.consumeURL(logger.Loc{})
+	case 3:
+		name = l.consumeName()
+	}
+	return r, kind, name, l.current, l.codePoint, l.Token.Range.Len
+}
